@@ -13,7 +13,11 @@ META = {
                  "arbitrary operation sequences; structural source facts AND the complete list of statics/thread-locals/interior-"
                  "mutable fields regenerated from /repo) + differential random histories: real Environment vs. Lean model vs. "
                  "freshly built environment in which every template is loaded under the load-time configuration of its last "
-                 "load; foreign-value and 8-thread streams for the runtime part",
+                 "load; foreign-value and 8-thread streams for the runtime part. Session 4: the memoising tier under ALL "
+                 "interleavings at lock granularity (explicit mutex, linearizable against the sequential store), renders as "
+                 "adaptive programs of lookups (C15_full / C15_main with the two validated hypotheses as typed parameters), the "
+                 "list of everything a compile can read and the hidden state of minijinja-contrib / minijinja-autoreload "
+                 "regenerated from source, fingerprint tables compared across processes that compile in different orders",
     "category": "proof",
     "text": "Kernel-checked theorems about the model of LoaderStore (borrowed map + memoising owned map with mutual "
             "eviction, loader, load-time TemplateConfig; compile as a parameter that may depend on the configuration; a stored "
@@ -69,7 +73,38 @@ META = {
             "stream: a render-bound value exported from a finished render must be REFUSED by every other render (oracle) and "
             "all 14 thread/history variants must agree. PARTIAL: interleavings of threads beyond the total order of STATE_ID "
             "are not modelled; they are validated by the foreign-value stream and by 8 threads rendering concurrently from "
-            "the shared environment.",
+            "the shared environment. SESSION 4: C15_full (takeClears, recycleClears) is the property at full strength over an "
+            "abstract renderer R (a render = an adaptive program of template lookups determined by name, context, run-time "
+            "configuration, registries and the hidden view of its thread) and compile predicate c: (1) any two histories from a "
+            "new environment, any two live environments with the same value, any two threads with arbitrary pasts render every "
+            "template with every context alike (render_history_independent + hidden_view_is_clean), (2) failed add is a no-op, "
+            "(3) after any other renders/lookups every template renders as before (renders_do_not_influence_each_other), (4) "
+            "under EVERY interleaving of any number of threads every answer equals a single lookup before the phase "
+            "(concurrent_same_answer), (5) stickiness sequentially and under every schedule incl. changes of what the loader "
+            "answers (cached_source_sticky, concurrent_entries_never_replaced). C15_main proves it from the one source "
+            "hypothesis pools_clear, which C15_main_source discharges from the regenerated pool table. The concurrent model "
+            "(MJ/Model/MemoConc.lean) has acquire / look / create+insert / release as separate steps, an explicit mutex and an "
+            "outside world that may change the loader's answers at any point; concurrent_lookups_linearizable: every schedule "
+            "is equivalent to the sequential history of its linearisation points (store = Store.run of it, every thread's "
+            "answers = the sequential answers, program order kept); concurrent_mutual_exclusion is derived, "
+            "without_mutex_answers_diverge shows what the lock is for; memo_map_source_as_modelled ties the model to the "
+            "source of memo-map (version of Cargo.lock, read from the cargo registry: get_or_try_insert locks first and "
+            "keeps the lock over look-up, creator and insert; whatever replaces or removes needs &mut self). "
+            "compile_depends_only_on: CompiledTemplate::new takes (name, source, &TemplateConfig), every call site hands it "
+            "the store's current template_config, _new_impl reads exactly the TemplateConfig fields, the compiler modules "
+            "import nothing through which environment/VM/loader/registries are reachable, and the hidden state inside them is "
+            "of carry-nothing classes. all_hidden_state_classified_ext: the same enumeration of statics / thread-locals / "
+            "interior-mutable fields over minijinja-contrib (cycler/joiner objects: value state) and minijinja-autoreload "
+            "(reloader mutexes: C20's layer). Oracle added: every history shard compiles its fingerprint table in another "
+            "permutation of the 96 configurations; the tables of all processes must be identical (compile-order). Correspondence "
+            "stream added for the concurrent model (gated loader): the first thread is held inside the loader — inside the "
+            "MemoMap's critical section — while 1..3 others look up the same name (must get the first thread's template), "
+            "another loader-backed name, or a borrowed-tier name (answered without the mutex, while the first is still held), "
+            "with or without a change of the loader's answers; all 78 schedules of that box run against the real MemoMap and "
+            "against Sys.run of the model (answers, who finished early, loader calls per name); the loader answers a second "
+            "request for a name differently, so a lookup that loads outside the lock and hands out its own compilation gives "
+            "two templates for one name (oracle), one that keeps the stored one only differs in the number of loader calls "
+            "(correspondence, not a failing input).",
     "design_ref": "DESIGN.md §3 C15",
     "level_note": "Proved (kernel): sequential store/configuration/registry/clone behaviour of the model for all histories; state ids "
                   "for all interleavings given one totally ordered counter; the discipline of each class of hidden state in its "
@@ -93,7 +128,24 @@ META = {
                   "passes (a context holding a consumed one-shot iterator is not 'the same context'). Template handles cannot "
                   "outlive a modification of their own environment (borrow checker); handles held across modifications of a "
                   "clone are validated. The order of templates() within the memo tier is HashMap order (unspecified): the "
-                  "multiset and the repeatability of the order are compared, not the order itself.",
+                  "multiset and the repeatability of the order are compared, not the order itself. "
+                  "MOVED FROM VALIDATED TO PROVED in session 3/4 (session 3's work was lost; redone in session 4): (a) concurrency "
+                  "of the MemoMap tier: was 'sampled schedules only' — now concurrent_lookups_linearizable / "
+                  "concurrent_mutual_exclusion / concurrent_entries_never_replaced / concurrent_same_answer hold for ALL "
+                  "interleavings at lock granularity in the model with an explicit mutex (assumption left: std's Mutex excludes, "
+                  "memo-map does what its regenerated facts say; &mut methods cannot run concurrently: borrow checker); (b) "
+                  "'rendering is a function of looked-up templates, run-time configuration, registries, context': the "
+                  "COMPOSITION is now proved (C15_main: whatever a renderer of that type does, histories, threads' pasts and "
+                  "other renders cannot influence it; the hidden view is provably the clean one); what stays validated is that "
+                  "the real VM IS such a renderer (render_reads_only — its evidence: the regenerated complete list of hidden "
+                  "state with a proved discipline per class + the differential histories) ; (c) 'a compiled template is a "
+                  "function of (name, source, load-time configuration)': the read set of the compile path is now a regenerated "
+                  "table with theorem compile_depends_only_on (signature, call sites, fields read, imports, hidden state in the "
+                  "compiler modules); what stays validated is determinism of the compiler's algorithm itself on those inputs — "
+                  "observed by fingerprints across processes compiling in different orders; (d) hidden state of "
+                  "minijinja-contrib and minijinja-autoreload enumerated and classified. STILL NOT PROVED: the VM/compiler as "
+                  "algorithms (C03/C14 model parts of them), std/memo-map/aho-corasick internals, schedules below lock "
+                  "granularity (data races are excluded by Rust's type system, not by this model).",
 }
 
 SHARD_HISTORIES = 375
@@ -151,15 +203,22 @@ def strip_logs(tok):
 
 
 TBL = {}
+REF_TBL = {}
+REF_ORDER = [None]
 
 
-def read_headers(r, lines):
-    """`#tbl name source ltcfg H` (fingerprints of the real compiler's output) and `#cmp` lines"""
+def read_headers(r, lines, order=None):
+    """`#tbl name source ltcfg H` (fingerprints of the real compiler's output) and `#cmp` lines.
+    With `r`: the table of this process becomes the one the model's answers are translated with, and it
+    is compared with the table of the first process seen (which compiled the configurations in another
+    order): a compiled template is a function of (name, source, load-time configuration) and of nothing
+    the process compiled before."""
     cmp_lines, cases = [], []
+    tbl = {}
     for l in lines:
         if l.startswith("#tbl "):
             _, n, k, cfg, h = l.split(" ")
-            TBL[(n, k, cfg)] = h
+            tbl[(n, k, cfg)] = h
         elif l.startswith("#cmp-inconsistent") and r is not None:
             r.broken.append("compile success of a source depends on more than the syntax: " + l)
         elif l.startswith("#strip-fallbacks ") and r is not None:
@@ -172,6 +231,23 @@ def read_headers(r, lines):
             pass
         else:
             cases.append(l)
+    if r is not None and tbl:
+        TBL.clear()
+        TBL.update(tbl)
+        if not REF_TBL:
+            REF_TBL.update(tbl)
+            REF_ORDER[0] = order
+        else:
+            r.extra["compile_tables_compared"] = r.extra.get("compile_tables_compared", 0) + 1
+            r.hist["compile_table_order"]["canonical" if not order else "permuted"] += 1
+            bad = [k for k in sorted(set(tbl) | set(REF_TBL)) if tbl.get(k) != REF_TBL.get(k)]
+            r.count(("compile-order", order), bool(order), n=len(tbl))
+            for (n, k, cfg) in bad[:40]:
+                r.oracle_failure(f"cmp:{n}:{k}:{cfg}:{order or 0}",
+                                 f"the compilation of source {k} under name {n} and load-time configuration {cfg} differs between two "
+                                 f"processes that compiled the configurations in different orders (order {REF_ORDER[0] or 0}: "
+                                 f"{str(REF_TBL.get((n, k, cfg)))[:16]}, order {order or 0}: {str(tbl.get((n, k, cfg)))[:16]}; "
+                                 f"{len(bad)} of {len(tbl)} entries differ)", "compile-order")
     return cmp_lines, cases
 
 
@@ -205,8 +281,8 @@ def run_driver(text):
     return p.stdout.splitlines() if p.returncode == 0 else None
 
 
-def process(r, exe, out, shrunk_sites, model="run"):
-    cmp_lines, lines = read_headers(r, out.splitlines())
+def process(r, exe, out, shrunk_sites, model="run", order=None):
+    cmp_lines, lines = read_headers(r, out.splitlines(), order)
     if model == "run":
         model = r.driver("drive_c15", "\n".join(cmp_lines + lines) + "\n")
     if model is None or len(model) != len(lines):
@@ -367,6 +443,49 @@ def process_foreign(r, exe, out):
             r.sample({"foreign_case": case, "main_thread": vs[0], "all_variants_equal": verdict == "="})
 
 
+def process_cc(r, exe, out):
+    """gated-loader stream: deterministic schedules of the memoising tier at lock granularity, real MemoMap
+    vs. MJ/Model/MemoConc.lean"""
+    lines = [l for l in out.splitlines() if l.startswith("cc:")]
+    model = r.driver("drive_c15", "".join(l.split("\t")[0] + "\n" for l in lines))
+    if model is None or len(model) != len(lines):
+        r.broken.append("model driver output does not line up with the gated-loader cases")
+        model = None
+    for li, line in enumerate(lines):
+        f = line.split("\t")
+        if len(f) != 5:
+            r.broken.append("malformed gated-loader line: " + line[:200])
+            continue
+        case, answers, early, loads, notes = f
+        _, others, world = case.split(":")
+        r.count(case, True, n=1 + len(others))
+        r.extra["gated_loader_cases"] = r.extra.get("gated_loader_cases", 0) + 1
+        r.hist["gated_loader_threads"][str(1 + len(others))] += 1
+        for ch in others:
+            r.hist["gated_loader_other_thread"][{"s": "same name (blocks, gets the first thread's template)",
+                                                 "d": "other loader-backed name (blocks, loads its own)",
+                                                 "b": "borrowed-tier name (no mutex: answered at once)"}[ch]] += 1
+        if model is not None:
+            # which lookups finish while the first thread is inside the loader and how often the loader is
+            # asked are facts of the MODEL (lock held over the creator; the borrowed tier needs no lock): a
+            # difference there is a correspondence failure, not a violation of the property
+            m = model[li].split("\t")
+            if m[1:] != [answers, early, loads]:
+                r.model_disagreement(case, " ".join([answers, early, loads]), " ".join(m[1:]))
+        vs = answers.split(" / ")
+        # the property: one name gives one template from any number of threads at once
+        same = [vs[0]] + [v for v, ch in zip(vs[1:], others) if ch == "s"]
+        others_d = [v for v, ch in zip(vs[1:], others) if ch == "d"]
+        if len(set(same)) != 1 or len(set(others_d)) > 1:
+            r.oracle_failure(case, f"threads looking up one name at once got different templates: {answers}", "concurrent-lookup:differs")
+        elif any(v == "panic" or v.startswith("err:") for v in vs):
+            r.oracle_failure(case, f"a lookup that a single thread performs successfully failed under concurrency: {answers}", "concurrent-lookup:failed")
+        elif "first-thread-never-reached-the-loader" in notes:
+            r.broken.append("gated-loader stream: the first thread never reached the loader in " + case)
+        if li % 29 == 0:
+            r.sample({"gated_loader_case": case, "threads_rendered": answers, "finished_while_first_thread_inside_loader": early, "loader_calls": loads})
+
+
 def run(r):
     r.rule = ("random histories (length 1..30, up to 3 live environments created by clone; one in seven starts from "
               "Environment::empty(), the others from Environment::new()) over {add_template, add_template_owned with owned / "
@@ -388,7 +507,12 @@ def run(r):
               "foreign-value stream: 9 exporters (macro, closure macro, namespace, set-export, module, caller, loop, from-import, "
               "nested macro) x 5 export sites x 4 consumers x {context, global}, each used on the main thread, on new threads "
               "after 0..3 other renders, on the exporting thread and on 2x4 concurrent threads (all 14 results must be "
-              "identical, and a render-bound value must be refused by every other render)")
+              "identical, and a render-bound value must be refused by every other render). Plus compile-order: the fingerprint table (96 "
+              "load-time configurations x 18 sources x 5 names) of every shard process is compiled in another permutation of the "
+              "configurations and compared entry by entry with the first one. Plus the gated-loader stream: the first thread is held "
+              "inside the loader (= inside the MemoMap's critical section) while 1..3 other threads look up the same name / another "
+              "loader-backed name / a borrowed-tier name and the loader's answers change or not (78 schedules, exhaustive over that "
+              "box), compared with the run of MJ/Model/MemoConc.lean under the same schedule")
     r.assumptions = ["Arc's strong count equals the number of live handles (std)",
                      "fetch_add on the process-wide STATE_ID is totally ordered (std atomics); no wrap-around within 2^64 states",
                      "a loader closure answers as a function of the name and of the modelled outside phase (no hidden state of its own)",
@@ -396,7 +520,9 @@ def run(r):
                      "guards are dropped innermost first when a panic unwinds (Rust semantics); VALUE_HANDLES entries leaked by an unwound conversion are never read (handles are fresh; u32 wrap-around not modelled)",
                      "OnceLock::get_or_init runs one initialiser and every reader sees its value; MemoMap is a map under a mutex (std / memo-map)",
                      "a context or global that holds a value with state of its own (namespace, one-shot iterator) is 'the same context' only in the same state",
-                     "thread schedules are sampled (8 threads x 12 renders per phase; 14 variants per foreign-value case), not enumerated"]
+                     "REAL thread schedules are sampled (8 threads x 12 renders per phase; 14 variants per foreign-value case); the MODEL of the memoising tier is proved for all schedules at lock granularity",
+                     "render_reads_only: the real VM is a function of (name, context, run-time configuration, registries, answers to its template lookups, hidden view) — typed parameter of C15_main, validated differentially",
+                     "compile_depends_only_on (algorithmic part): the compiler is deterministic in (name, source, load-time configuration) — typed parameter, validated by fingerprints across processes and compile orders; its read set is proved from the regenerated table"]
     timing = r.extra.setdefault("own_step_seconds", {})
     t_mark = [time.time()]
 
@@ -406,7 +532,7 @@ def run(r):
         t_mark[0] = now
     r.regen_tables(["C15_SETTERS", "C15_TEMPLATE_CONFIG", "C15_INSERT_ARMS", "C15_GET_ORDER", "C15_REMOVE_CLEAR", "C15_STATE_ID", "C15_CLONE_DERIVES",
                     "C15_THREAD_LOCALS", "C15_DROP_GUARDS", "C15_POOLS", "C15_HANDLE_REGISTRY", "C15_INSERT_ARM_PATTERNS",
-                    "C15_HIDDEN_STATE", "C15_MEMO_MAP"])
+                    "C15_HIDDEN_STATE", "C15_MEMO_MAP", "C15_HIDDEN_STATE_EXT", "C15_COMPILE_READS"])
     lap("regen_tables")
     r.lean_prove("MJ.Props.C15", "MJ/Audit/C15.lean", extra_targets=["drive_c15"])
     lap("lean_build_and_audit")
@@ -424,6 +550,12 @@ def run(r):
         r.extra["corpus_histories"] = r.extra.get("corpus_histories", 0) + sum(1 for l in out.splitlines() if not l.startswith("#"))
         process(r, exe, out, shrunk)
     lap("corpus")
+    rc, out, err = r.harness(exe, ["conc", "1" if r.tier == "quick" else "6"])
+    if rc != 0:
+        r.broken.append(f"harness c15 conc exited {rc}: {err[-300:]}")
+    else:
+        process_cc(r, exe, out)
+    lap("gated_loader_stream")
     # the foreign-value stream is bound by thread start-up latency, not by CPU: it runs beside the
     # history shards and is evaluated after them (fixed order of evaluation = deterministic report)
     foreign_pool = concurrent.futures.ThreadPoolExecutor(max_workers=1)
@@ -445,11 +577,12 @@ def run(r):
     # the histories are generated and run in shards (one harness process each, `WORKERS` at a time);
     # the results are processed in shard order, so the run is deterministic in VERIF_SEED
     n_chunks = QUICK_SHARDS if r.tier == "quick" else THOROUGH_SHARDS
-    chunks = [(spread(i), SHARD_HISTORIES) for i in range(n_chunks)]
+    # shard i compiles its table of fingerprints in the i-th permutation of the configurations (0 = canonical)
+    chunks = [(spread(i), SHARD_HISTORIES, i) for i in range(n_chunks)]
 
     def shard(ch):
-        seed, count = ch
-        rc, out, err = r.harness(exe, ["gen", r.tier, str(count)], env={"VERIF_SEED": str(seed)})
+        seed, count, order = ch
+        rc, out, err = r.harness(exe, ["gen", r.tier, str(count)], env={"VERIF_SEED": str(seed), "C15_TABLE_ORDER": str(order)})
         model = None
         if rc == 0:
             cmp_lines, lines = read_headers(None, out.splitlines())
@@ -462,7 +595,7 @@ def run(r):
             wave = chunks[w:w + 2 * WORKERS]
             results = list(ex.map(shard, wave))
             lap("history_shards_run")
-            for (seed, count), (rc, out, err, model) in zip(wave, results):
+            for (seed, count, order), (rc, out, err, model) in zip(wave, results):
                 if rc != 0:
                     r.broken.append(f"harness c15 exited {rc}: {err[-300:]}")
                     finish_foreign()
@@ -470,7 +603,7 @@ def run(r):
                 got = sum(1 for l in out.splitlines() if not l.startswith("#"))
                 if got != count:
                     r.broken.append(f"harness c15 produced {got} histories instead of {count}")
-                process(r, exe, out, shrunk, model)
+                process(r, exe, out, shrunk, model, order)
             del results
             lap("history_shards_evaluation")
     finish_foreign()
@@ -484,6 +617,24 @@ def replay(r, path):
         cases.append(c.get("case"))
     for case in cases:
         if not case:
+            continue
+        if case.startswith("cmp:"):
+            _, n, k, cfg, order = case.split(":")
+            print(f"compile-order case: source {k} under name {n}, load-time configuration {cfg}")
+            rc, out, err = r.harness(exe, ["tblone", n, k, cfg])
+            print("   compiled alone in a new process:                  ", out.strip()[:80])
+            for o in ("0", order):
+                rc, out, err = r.harness(exe, ["gen", "quick", "0"], env={"C15_TABLE_ORDER": o})
+                h = [l.split(" ")[4] for l in out.splitlines() if l.startswith(f"#tbl {n} {k} {cfg} ")]
+                print(f"   in a process compiling all configurations, order {o:>3}:", (h[0] if h else "uncompilable")[:80])
+            continue
+        if case.startswith("cc:"):
+            rc, out, err = r.harness(exe, ["cone", case])
+            model = r.driver("drive_c15", case + "\n")
+            f = out.rstrip("\n").split("\t")
+            print("gated-loader case:", case, "(first thread held inside the loader; others: s same name, d other loader name, b borrowed tier; w = the loader's answers change meanwhile)")
+            print("   engine:", " | ".join(f[1:]))
+            print("   model :", " | ".join(model[0].split("\t")[1:]) if model else None)
             continue
         if case.startswith("fx:"):
             rc, out, err = r.harness(exe, ["fone", case])
